@@ -38,6 +38,9 @@ CAP_ALL_PATHS = 3000      # find_all_paths is linear in the number of paths
 CAP_LONGEST = 250         # find_longest_paths is quadratic in it
 KEEP_PER_MECH = 3         # witnesses kept per mechanism and cell
 RAISE_BREAKER = 100       # per cell and function: stop calling after that many raising calls
+PROGRAM_CALL_BUDGET = 4000   # outermost wrapped calls judged per program; beyond: every 40th
+BUDGET_SAMPLING = 40
+PROGRAM_WATCHDOG = 180    # seconds per generated program incl. its erasures (watchdog only)
 GRAPH_WATCHDOG = 120      # seconds for all calls on one graph (watchdog, never a verdict)
 EXH_TOTAL = 1 + 2 + 16 + 512 + 65536
 KNOWN_PATTERN = 'kept-iff-no-extension-of-length-2L-1'
@@ -588,6 +591,8 @@ class Monitor(object):
         self.case = None
         self.nx_every = 1
         self.ncalls = 0
+        self.prog_calls = 0       # outermost calls within the current program
+        self.over_budget = 0
 
     def install(self):
         for name in FUNCS:
@@ -609,7 +614,9 @@ class Monitor(object):
             finally:
                 mon.depth -= 1
                 try:
-                    if mon.depth == 0:
+                    if isinstance(exc, Watchdog):
+                        mon.out.ev('pipe.calls_cut_by_program_watchdog')
+                    elif mon.depth == 0:
                         mon.record(name, a, k, res, exc)
                     else:
                         mon.out.ev('pipe.inner.' + name)
@@ -625,6 +632,11 @@ class Monitor(object):
         out = self.out
         out.ev('pipe.calls.' + name)
         self.ncalls += 1
+        self.prog_calls += 1
+        if self.prog_calls > PROGRAM_CALL_BUDGET and self.prog_calls % BUDGET_SAMPLING:
+            # one erasure can enumerate > 10^6 combinations of one type graph
+            self.over_budget += 1
+            return
         nv = len(a) - 1
         if k or not (nv == rg.ARITY[name] or (name in NONE_FUNCS and nv == 1)):
             out.skip('pipe-unexpected-call-signature')
@@ -700,10 +712,14 @@ def cell_pipeline(cell):
     mon.nx_every = cell.get('nx_every', 1)
     mon.install()
     assert tda.gu.dfs.__wrapped__ is mon.orig['dfs']
+    signal.signal(signal.SIGALRM, _on_alarm)
     for s in cell['seeds']:
         mon.case = {'language': cell['language'], 'seed': s,
                     'switches': list(cell.get('switches', ())),
-                    'max_depth': cell.get('max_depth')}
+                    'max_depth': cell.get('max_depth'),
+                    'transformations': cell.get('transformations', 2)}
+        mon.prog_calls = 0
+        signal.alarm(cell.get('program_watchdog', PROGRAM_WATCHDOG))
         try:
             boot.reseed(s)
             heph.utils.random.reset_word_pool()
@@ -715,10 +731,17 @@ def cell_pipeline(cell):
                 out.ev('pipe.transformations')
                 if res is not None:
                     program = res[0]
+        except Watchdog:                # coverage, never a verdict
+            out.ev('pipe.program_watchdog')
+            out.skip('pipe-program-cut-by-watchdog')
         except Exception as e:          # internal failures are C18's subject
             out.ev('pipe.pipeline_exception')
             out.info.setdefault('pipeline_exceptions', []).append(
                 '%s seed=%s %s: %s' % (cell['language'], s, type(e).__name__, str(e)[:120]))
+        finally:
+            signal.alarm(0)
+    if mon.over_budget:
+        out.unjudged['pipe-call-over-program-budget'] = mon.over_budget
     return out.result()
 
 
@@ -754,7 +777,8 @@ def plan(tier, seed):
         r = random.Random(common.h32(seed, 'C19-pipe', i))
         c = {'kind': 'pipe', 'language': LANGS[i % len(LANGS)],
              'seeds': [common.h32(seed, 'C19-prog', i, j) for j in range(sz['pipe_programs'])],
-             'nx_every': 1 if tier == 'quick' else 3}
+             'nx_every': 1 if tier == 'quick' else 3,
+             'program_watchdog': 60 if tier == 'quick' else PROGRAM_WATCHDOG}
         if tier != 'quick' and i >= 8:
             c['switches'] = [s for s in SWITCHES if r.random() < 0.3]
             c['max_depth'] = r.choice((None, None, 5, 6, 7))
@@ -833,12 +857,17 @@ def main(prop, tier):
         '(find_all_paths) / %d (find_longest_paths, find_all_reachable) simple paths: the real '
         'find_longest_paths is quadratic in that number' % (CAP_ALL_PATHS, CAP_LONGEST),
         'truthiness, set and multiset-of-paths equality are judged, container types are not',
-        'pipeline type graphs: only dfs is called by the analysis (other wrappers stay at zero events)',
+        'pipeline type graphs: only dfs is called by the analysis (other wrappers stay at zero events); '
+        'per program the first %d outermost calls are judged, then every %dth (one erasure can make '
+        '> 10^6 calls on variants of one type graph); a program running longer than %d s wall '
+        '(60 s on the quick tier) is cut (coverage only, counted)'
+        % (PROGRAM_CALL_BUDGET, BUDGET_SAMPLING, PROGRAM_WATCHDOG),
     ]
     extra = {'exhaustive_graphs': ev.get('exh.graphs', 0),
              'random_graphs': ev.get('rnd.graphs', 0),
              'pipeline_programs': ev.get('pipe.programs', 0),
-             'pipeline_dfs_calls_judged': ev.get('pipe.judged.dfs', 0)}
+             'pipeline_dfs_calls_judged': ev.get('pipe.judged.dfs', 0),
+             'pipeline_programs_cut_by_watchdog': ev.get('pipe.program_watchdog', 0)}
     return agg.finish(rule=rule, assumptions=assumptions, extra=extra, exhaustive=True)
 
 
